@@ -39,12 +39,18 @@ def H(name, module, props, bounded=None, tier='quick', timeout=300, doc='', carg
 
 
 HARNESSES = [
+    H('k_lead_fields', 'kani_lead.rs', ['C01', 'C04'], timeout=900, doc='all 96-byte leads: accepted iff magic ed ab ee db; every field is the corresponding input bytes; no panic (try_into().unwrap())'),
+    H('k_lead_new', 'kani_lead.rs', ['C09'], bounded='name length <= 3 and 70 (two concrete lengths around the 65-byte cut)', timeout=600, doc='Lead::new: magic, major 3, type 0, os 1, signature type 5, NUL-terminated name'),
     # ---- C01 / C14 / C04 leaves on header.rs ------------------------------------------------
     H('k_be_link', 'kani_header.rs', ['C01', 'C14', 'C09'], doc='all u8/u16/u32/i32/u64: to_be_bytes equals the spec vocabulary be16/be32/be64 (links the Verus BeBytes contract to std)'),
     H('k_type_map', 'kani_header.rs', ['C01', 'C05'], doc='all u32: from_type_as_u32 / type_as_u32 inverse on 0..=9, None otherwise'),
-    H('k_intro_rt', 'kani_header.rs', ['C01', 'C04'], doc='all 16-byte intros: accepted => fields are the BE words and write reproduces the input up to the 4 reserved bytes'),
-    H('k_intro_accept', 'kani_header.rs', ['C01', 'C04'], doc='all 16-byte intros: accepted iff magic 8e ad e8 and version 1'),
-    H('k_entry_rt', 'kani_header.rs', ['C01', 'C04', 'C05'], doc='all 16-byte index entries: accepted iff type < 10; fields are the BE words; write_index reproduces the input'),
+    H('k_intro_fields', 'kani_header.rs', ['C01', 'C04'], timeout=600, doc='all 16-byte intros: accepted iff magic 8e ad e8 + version 1 (reserved bytes ignored); fields are the BE words'),
+    H('k_entry_fields', 'kani_header.rs', ['C01', 'C04', 'C05'], timeout=900, doc='all 16-byte index entries: accepted iff type < 10; fields are the BE words; data empty with that type code; 16 bytes consumed'),
+    H('k_take_till_nul', 'kani_header.rs', ['C01', 'C04', 'C05'], bounded='slice length <= 8', timeout=600, doc='real nom take_till(==0): never errors; head = bytes before first NUL; rest starts at it'),
+    H('k_parse_binary_entry', 'kani_header.rs', ['C01', 'C04', 'C05'], bounded='slice length <= 8 (all u32 counts)', timeout=600, doc='Ok iff count <= len; appends exactly input[..count]; no panic'),
+    H('k_dec_u16', 'kani_header.rs', ['C01', 'C04', 'C05'], bounded='slice length <= 8 (all u32 counts)', timeout=900, doc='parse_entry_data_number<u16>: Ok iff 2*count <= len; BE words; reserve <= input length'),
+    H('k_dec_u32', 'kani_header.rs', ['C01', 'C04', 'C05'], bounded='slice length <= 12 (all u32 counts)', timeout=900, doc='parse_entry_data_number<u32>'),
+    H('k_dec_u64', 'kani_header.rs', ['C01', 'C04', 'C05'], bounded='slice length <= 16 (all u32 counts)', timeout=900, doc='parse_entry_data_number<u64>'),
     H('k_entry_short', 'kani_header.rs', ['C04'], doc='all inputs shorter than 16 bytes: Err, no panic'),
     H('k_write_index_sink_1byte', 'kani_header.rs', ['C14'], bounded='one sink: accepts 1 byte per call, never fails (all tag/offset/count values)', doc='counterexample twin of V:IndexEntry::write_index: Ok => exactly the 16 canonical bytes'),
     H('k_write_index_sink_fail5', 'kani_header.rs', ['C14'], bounded='one sink: 1 byte per call, fails at call 5', tier='thorough', timeout=900, doc='Err => the 5 accepted bytes are a prefix of the canonical bytes'),
